@@ -54,10 +54,13 @@ var tmplWhats = []tmplWhat{
 	{"stop", nativeCall{name: "Stop", typ: "func(int)", args: "1", env: true}, &nativeCall{name: "RStop", typ: "func(int) string", args: "1", env: true, ret: "string"}, "stop:1"},
 	{"fatal", nativeCall{name: "Fatal", typ: "func(int)", args: "7", env: true}, &nativeCall{name: "RFatal", typ: "func(int) string", args: "7", env: true, ret: "string"}, "fatal:7"},
 	{"callback-panics", nativeCall{name: "Call", typ: "func(func())", args: "func() { panic(5) }"}, &nativeCall{name: "RCall", typ: "func(func()) string", args: "func() { panic(5) }", ret: "string"}, "panic:5"},
+	{"callback-stops", nativeCall{name: "Call", typ: "func(func())", args: "func() { Stop(1) }"}, &nativeCall{name: "RCall", typ: "func(func()) string", args: "func() { Stop(1) }", ret: "string"}, "stop:1"},
+	{"callback-fatals", nativeCall{name: "Call", typ: "func(func())", args: "func() { Fatal(7) }"}, &nativeCall{name: "RCall", typ: "func(func()) string", args: "func() { Fatal(7) }", ret: "string"}, "fatal:7"},
+	{"callback-recovers-then-stops", nativeCall{name: "Call", typ: "func(func())", args: "func() { recover(); Stop(1) }"}, nil, "stop:1"},
 	{"callback-returns", nativeCall{name: "Call", typ: "func(func())", args: "func() {}"}, &nativeCall{name: "RCall", typ: "func(func()) string", args: "func() {}", ret: "string"}, "done"},
 }
 
-var tmplPositions = []string{"statement", "show", "macro", "macro-show", "recovering-literal"}
+var tmplPositions = []string{"statement", "show", "macro", "macro-show", "recovering-literal", "deferred-while-panicking", "macro-deferred-while-panicking", "deferred-after-recover"}
 
 type tmplCase struct {
 	reach     int
@@ -116,6 +119,25 @@ func (t tmplCase) source() (src, want, wantOut string) {
 		}
 		src = "a{% func() { defer func() { recover() }(); " + lits.String() + call + " }() %}b"
 		wantOut = "a"
+	}
+	if t.pos >= 5 {
+		// a deferred closure runs the call while panic(3) is active: decided for Stop and Fatal only
+		if !strings.HasPrefix(w.want, "stop:") && !strings.HasPrefix(w.want, "fatal:") {
+			return "", "", ""
+		}
+		var lits strings.Builder
+		for _, l := range pre {
+			lits.WriteString(unq(l) + "; ")
+		}
+		wantOut = "a"
+		switch t.pos {
+		case 5:
+			src = "a{% func() { defer func() { " + lits.String() + call + " }(); panic(3) }() %}b"
+		case 6:
+			src = "{% macro M %}m" + stmts.String() + "{% " + call + " %}n{% end %}a{% func() { defer func() { _ = M() }(); panic(3) }() %}b"
+		case 7:
+			src = "a{% func() { defer func() { recover(); " + lits.String() + call + " }(); panic(3) }() %}b"
+		}
 	}
 	want = w.want
 	if t.pos == 4 && strings.HasPrefix(want, "panic:") {
